@@ -58,10 +58,57 @@ def gen_bend(rng, n):
     return out
 
 
-def gen_mic(rng, n):
+def shipped_box_lengths(ctx):
+    """system_length values of the shipped configuration files (read from the scratch copy of the current tree)"""
+    import configparser
+    import glob
+    import os
+    vals = set()
+    for f in glob.glob(os.path.join(ctx.scratch, "jellyfysh", "config_files", "**", "*.ini"), recursive=True):
+        cp = configparser.ConfigParser()
+        try:
+            cp.read(f)
+        except configparser.Error:
+            continue
+        for sec in cp.sections():
+            if cp.has_option(sec, "system_length"):
+                try:
+                    vals.add(float(cp.get(sec, "system_length")))
+                except ValueError:
+                    pass
+    return sorted(vals)
+
+
+BOX_POOL = [1.0, 2.0, 3.3, 10.0]
+COPY_VIAS = ["deepcopy", "tagger1", "tagger2", "dill", "pickle"]
+REL_SEPS = [(1.0 / 7.0, 1.0 / 8.0, 1.0 / 5.0), (-0.31, 0.22, -0.43), (0.49, -0.05, 0.11), (0.02, 0.03, -0.01),
+            (-0.499, 0.499, 0.25)]
+
+
+def gen_mic_copies(rng, lengths, nsep):
+    """every instance of the lattice-sum potential the application can hold (deep copies made by copy.deepcopy and by
+    a real tagger with three event handlers, dill / pickle round trips) x box lengths x directions x charge signs"""
+    out = []
+    for L in lengths:
+        seps = [REL_SEPS[0]] + rng.sample(REL_SEPS[1:], min(nsep - 1, len(REL_SEPS) - 1))
+        if nsep > len(REL_SEPS):
+            seps += [tuple(rng.uniform(-0.5, 0.5) for _ in range(3)) for _ in range(nsep - len(REL_SEPS))]
+        for rel in seps:
+            sep = [t * L for t in rel]
+            for d in range(3):
+                for (c1, c2) in ((1.0, 1.0), (1.0, -1.0)):
+                    for via in COPY_VIAS:
+                        op = {"k": "mic_der", "alpha": f2b(3.45), "fc": 6, "pc": 2, "pref": f2b(1.0), "c1": f2b(c1),
+                              "c2": f2b(c2), "sep": bits(sep), "dir": d, "speed": f2b(rng.choice([1.0, 0.4, 2.5])),
+                              "L": f2b(L), "via": via}
+                        out.append({"fam": "miccopy", "op": op})
+    return out
+
+
+def gen_mic(rng, n, lengths=(1.0, 1.0, 2.0, 3.3)):
     out = []
     for i in range(n):
-        L = rng.choice([1.0, 1.0, 2.0, 3.3])
+        L = rng.choice(list(lengths))
         sep = [rng.uniform(-L / 2, L / 2) for _ in range(3)]
         if i % 5 == 0:
             sep[rng.randrange(3)] = rng.choice([-1, 1]) * L / 2 * (1 - 10 ** rng.uniform(-9, -2))   # near a box face
@@ -215,7 +262,9 @@ def run(ctx, cases_override=None):
         cases = [der_op(c, rng) for c in (K.gen_ip(rng, int(N * 0.3)) + K.gen_mh(rng, int(N * 0.2), "lj")
                                           + K.gen_mh(rng, int(N * 0.2), "dep") + K.gen_ipc(rng, int(N * 0.12))
                                           + K.gen_cb(rng, int(N * 0.04)))]
-        cases += gen_bend(rng, int(N * 0.1)) + gen_mic(rng, ctx.n(40, 300))
+        lengths = sorted(set(BOX_POOL) | set(shipped_box_lengths(ctx)))
+        cases += gen_bend(rng, int(N * 0.1)) + gen_mic(rng, ctx.n(40, 300), lengths=[1.0] + lengths)
+        cases += gen_mic_copies(rng, lengths, ctx.n(2, 6))
         # near the minimum of the Mexican hats (cancellation in r - r0) and near the axis planes
         for c in cases:
             if c["fam"] in ("lj", "dep", "ip") and rng.random() < 0.1:
@@ -242,6 +291,10 @@ def run(ctx, cases_override=None):
             o4 = dict(op)
             o4["c1"], o4["c2"] = op["c2"], op["c1"]
             add(i, "swap", o4)
+        if c["fam"] == "miccopy":
+            o0 = dict(op)
+            o0.pop("via", None)
+            add(i, "orig", o0)
         if c["fam"] in ("ipc", "mic"):
             d = op["dir"]
             s = sepv(op)
@@ -298,8 +351,10 @@ def run(ctx, cases_override=None):
 
     viol = []
     coq_cases, idx, evs = [], [], {}
-    n_fd = n_scale = n_mic = 0
+    n_fd = n_scale = n_mic = n_copy = 0
     mic_err = []
+    copy_err = []
+    ref_cache = {}
     for i, c in enumerate(cases):
         op = c["op"]
         g = got[i]
@@ -392,6 +447,30 @@ def run(ctx, cases_override=None):
                                  % (mv, main[mv], fd)))
             if abs(main[0] + main[1] + main[2]) > 2.0 ** -48 * max(abs(t) for t in main):
                 viol.append((c, g["main"], "bending derivatives do not sum to zero: %r" % (main,)))
+        if c["fam"] == "miccopy":
+            n_copy += 1
+            d = op["dir"]
+            L = fl(op, "L")
+            s = sepv(op)
+            scale = abs(fl(op, "pref") * fl(op, "c1") * fl(op, "c2")) * sp
+            rmin2 = sum(min(abs(t), L - abs(t)) ** 2 for t in s)
+            ref_scale = scale * (1.0 / L ** 2 + 1.0 / max(rmin2, 1e-300))
+            og = val(g["orig"])
+            if og is None or abs(og[0] - main[0]) > 1e-12 * ref_scale:
+                viol.append((c, g["main"], "the %s instance of the lattice-sum potential (L=%r) reports %r, the original "
+                             "instance %r" % (op["via"], L, main[0], og)))
+            key = (op["L"], tuple(op["sep"]), d)
+            if key not in ref_cache:
+                ref_cache[key] = ewald_reference([s[d], s[(d + 1) % 3], s[(d + 2) % 3]], L)
+            ref = ref_cache[key] * fl(op, "pref") * fl(op, "c1") * fl(op, "c2") * sp
+            copy_err.append(abs(ref - main[0]) / ref_scale)
+            if abs(ref - main[0]) > 1e-9 * ref_scale:
+                viol.append((c, g["main"], "the %s instance of the lattice-sum potential (L=%r) reports %r, the "
+                             "brute-force Ewald reference is %r" % (op["via"], L, main[0], ref)))
+            if og is not None and abs(ref - og[0]) > 1e-9 * ref_scale:
+                viol.append((c, g["orig"], "lattice-sum derivative (L=%r) %r differs from the brute-force Ewald "
+                             "reference %r" % (L, og[0], ref)))
+            continue
         if c["fam"] == "mic":
             n_mic += 1
             d = op["dir"]
@@ -488,6 +567,9 @@ def run(ctx, cases_override=None):
         "model_vs_impl_mismatches": len(mism),
         "finite_difference_checks": n_fd,
         "scaling_checks": n_scale,
+        "lattice_sum_instances": {"cases": n_copy, "instances": COPY_VIAS,
+                                  "box_lengths": sorted({b2f(c["op"]["L"]) for c in cases if c["fam"] == "miccopy"}),
+                                  "max_deviation_from_bruteforce_ewald_over_scale": max(copy_err) if copy_err else None},
         "lattice_sum": {"points": n_mic, "compared_with_bruteforce_ewald": len(mic_err),
                         "max_deviation_over_scale": max(mic_err) if mic_err else None,
                         "status": "numerical validation only (partial): not modelled in Coq"},
